@@ -427,7 +427,7 @@ func vfE1SGen(r *vfRand, maxBuf int, deflateThenSnappy bool) string {
 			// snappy negotiated after deflate is a finding of its own on the tree before F30
 			// (snappy-after-deflate-garbled: the orphaned flate.Writer keeps being flushed); it is
 			// generated only when the tree has the fix, and replayed oracle-only otherwise.
-			// TLS after deflate (open finding tls-after-deflate-garbled on /repo d6aa4e3, repaired by F30b)
+			// TLS after deflate (finding tls-after-deflate-garbled of /repo d6aa4e3, fixed by F30b = /repo d424240)
 			// IS inside the model (Model.WireStack.kstep): generated on every tree
 			u := r.Intn(5)
 			switch {
